@@ -458,15 +458,18 @@ func contPhases(tier string) []PhaseCfg {
 	radix := []int{7, 2, 2, 3, 5, 5, 4, 3}
 	if tier == "thorough" {
 		return []PhaseCfg{{Name: "structural-sweep", Radix: radix, Count: product(radix), P: map[string]int{"seeded_tail": 1}},
-			{Name: "seeded", Count: 3_000_000}, pairPhase(4_000, 300_000, tier)}
+			{Name: "seeded", Count: 3_000_000}, pairPhase(4_000, 300_000, tier), {Name: "multi-container", Count: 3_000_000, P: map[string]int{"multi": 1}}}
 	}
 	return []PhaseCfg{{Name: "structural-sweep", Radix: radix, Count: product(radix), P: map[string]int{"seeded_tail": 1}},
-		{Name: "seeded", Count: 40_000}, pairPhase(4_000, 300_000, tier)}
+		{Name: "seeded", Count: 40_000}, pairPhase(4_000, 300_000, tier), {Name: "multi-container", Count: 40_000, P: map[string]int{"multi": 1}}}
 }
 
 func (c06Prop) Phases(tier string) []PhaseCfg { return contPhases(tier) }
 
 func (c06Prop) Gen(t *Tape, ph *PhaseCfg) Case {
+	if ph.P["multi"] == 1 {
+		return genMulti(t)
+	}
 	if ph.P["pair"] == 1 {
 		return genPair(t, func() Case { return genContainerOpt(t, true) })
 	}
@@ -474,6 +477,9 @@ func (c06Prop) Gen(t *Tape, ph *PhaseCfg) Case {
 }
 
 func (c06Prop) Exec(cc Case, st *Stats) *Violation {
+	if m, ok := cc.(*multiCase); ok {
+		return multiExec(m, st, true)
+	}
 	if g, ok := cc.(*genericPair); ok {
 		return contPairExec(g, st, c06Verdict)
 	}
@@ -544,6 +550,9 @@ func (c15Prop) Rule() string {
 func (c15Prop) Phases(tier string) []PhaseCfg { return contPhases(tier) }
 
 func (c15Prop) Gen(t *Tape, ph *PhaseCfg) Case {
+	if ph.P["multi"] == 1 {
+		return genMulti(t)
+	}
 	if ph.P["pair"] == 1 {
 		return genPair(t, func() Case { return genContainerOpt(t, true) })
 	}
@@ -551,6 +560,9 @@ func (c15Prop) Gen(t *Tape, ph *PhaseCfg) Case {
 }
 
 func (c15Prop) Exec(cc Case, st *Stats) *Violation {
+	if m, ok := cc.(*multiCase); ok {
+		return multiExec(m, st, false)
+	}
 	if g, ok := cc.(*genericPair); ok {
 		return contPairExec(g, st, c15Verdict)
 	}
